@@ -31,7 +31,9 @@ Tie (8 virtual CPU devices):
 
 PARTIAL by design: XLA's SPMD partitioner, shard_map, the collectives, jnp.einsum / jax.eval_shape and
 with_sharding_constraint are executed by (i) and (iii), not modelled; the sharded implicit operators, filters and whole
-steps are covered by the differential only.
+steps are covered by the differential only; the composition plan -> block layout -> collective -> einsum is a theorem for
+the 2-D matrix pattern on a one-axis mesh only (shardedEinsum_matrix_partial), for the batched transform patterns on the
+3-axis mesh it is by schedule trace + differential.
 """
 import dataclasses
 import functools
@@ -1103,7 +1105,11 @@ def run(ctx: common.Ctx):
                          'with_sharding_constraint are executed on 8 virtual CPU devices by the schedule trace and the '
                          'sharded-vs-unsharded differential, not modelled; the sharded forms of the implicit operators, filters '
                          'and whole steps have no theorem of their own beyond the scaling lists of T7.8: they are compared with '
-                         'the unsharded computation by the differential (every tier; one whole filtered IMEX step per quick run)')
+                         'the unsharded computation by the differential (every tier; one whole filtered IMEX step per quick run); '
+                         'the link from the plan of sharded_einsum (lhs_spec / split or scatter axis / reduce letter) to the block '
+                         'layout of the operands assumed by the collective theorems is proved for two 2-D operands on a one-axis mesh '
+                         'only (shardedEinsum_matrix_partial, tied by the driver op semat to the real sharded_einsum); for the einsum '
+                         'patterns of the transforms (batch letters, 3-axis mesh) it is by schedule trace + differential, not by theorem')
   ctx.notes.append('domain: PrimitiveEquations with z > 1 needs a level count divisible by z (shard_map in _dot_cumsum '
                    'rejects other counts with ValueError; the model returns none there); Grid.to_nodal/to_modal/d_dlon '
                    'accept any level count through _with_vertical_padding')
